@@ -15,6 +15,7 @@ EXPLANATION = (
     "and grace notes move too) — in both the Score and the Part branch; (RET) the copy is what is returned; (F3) STEPS / "
     "BASE_PC / MIDI_BASE_CLASS / INTERVAL_TO_SEMITONES agree and the transposer, Interval.semitones and transpose_note "
     "read those tables."
+    ' (P1-only) the identity shortcut is keyed on the interval class P1, not on zero semitones (P1 and d2 both have 0).'
 )
 NOT_DECIDED = [
     "correctness of the step / octave / alteration arithmetic and up-then-down = identity (arithmetic; e.g. a wrong sign for "
